@@ -319,6 +319,9 @@ def run(ctx, rep):
 
     c03.rule_gate_def(ctx, rep)  # shape S3 (an owner frees after observing `count == 1`) is only sound if that observation is the Acquire `== 1` gate over Release decrements
     rule_moves(ctx, rep)
+    from . import c06
+
+    c06.rule_moveonce(ctx, rep)  # values moved bitwise into a block: their source is disarmed exactly once, or they are destroyed twice
     balance.rule_writeback(ctx, rep)
     rep.floor("R-WRITEBACK", 0, "OffsetArc::make_mut today; a copy-on-write that never moves the handle out of its place has nothing to write back")
     rep.floor("R-BAL", 150, "API bodies (default configuration has 170+)")
